@@ -122,6 +122,7 @@ def parseHandler : List String → Option HSpec
   | ["hf"] => some { h := validateAndWrap (builtinShape 0) (.plain [tyRW, tyReq] noResults), maps := [], resp := none }
   | ["t", status, body] =>
     some { h := validateAndWrap (builtinShape 2) (.plain [] (fun _ => [natOf status, 0])), maps := [], resp := some s!"{natOf status}:{body}" }
+  | ["ci", maps] => some { h := .fast [tyCtx] (wrap 1 noResults), maps := parseMaps maps, resp := none }
   | ["l", maps] => some { h := .fast [tyCtx, tyLog] (wrap 2 noResults), maps := parseMaps maps, resp := none }
   | _ => none
 
